@@ -1167,6 +1167,7 @@ static void runManagerLayer()
                     waitpid(pid, &st, 0);
                 }
                 if (pid != 0 && WIFSIGNALED(st)) {
+                    // key of the defect fixed by repo commit c3b50d7 (takeFirst() on an empty item list); the witness cases stay in part C
                     bool mixFirst = (mc.name == "mix:requestChannelConfiguration" || mc.name == "mix:requestChannelInformation") && (a == "empty-result" || a == "unexpected-payload");
                     oracleFail(mixFirst ? "C07:mgr:mix:empty-items-takeFirst-crash" : "C07:mgr:" + mc.name + ":" + a + ":crash",
                                "manager layer: " + mc.name + " answered with " + a + ": the process dies with signal " + std::to_string(WTERMSIG(st)) + " instead of completing the request");
